@@ -23,6 +23,7 @@ EXPLANATION = (
     "to the consumer; (WRAP) Take/Enumerate/Map/Limit consumers return the inner send/progress/flush result unchanged (Take may only "
     "replace it by Break). In-flight futures are owned by the consumer inside the operation's own future (C02.OWN), hence dropped "
     "no later than it.")
+EXPLANATION += (' (RESVEC, entry) the FromConcurrentStream impl for Result<Vec<T>, E> drives the stream with a consumer that can answer Break: collecting with a consumer that never stops the stream and folding afterwards would keep the right value but lose the short-circuit.')
 ASSUMPTIONS = [
     "futures_buffered::FuturesUnordered yields every completed future's output exactly once",
     "Try::branch / from_residual / from_output of the user's result type behave per core::ops::Try",
